@@ -39,7 +39,10 @@ RULE = ("model tie: (1) Metadata(metafile)._map_pieces() -> per piece the (full,
         "first (known finding D27) and with aligned v1 metafiles (D28).  Aimed streams: the same file name in two directories with whole-piece "
         "files; file, directory and torrent names that CONTAIN consecutive dots ('wait....bin', 'disc..2', '..x': ordinary names, also in "
         "every random payload pool), as single metafiles and in batches / metafile directories; v1 with a file of exactly k pieces followed "
-        "by a file whose wholly different same-size decoy is enumerated before the intact copy; RESUME sequences (v1, v2, hybrid; Assembler "
+        "by a file whose wholly different same-size decoy is enumerated before the intact copy; directory torrents (v2, hybrid, v1; every "
+        "creator and the reference encoder; single metafiles and batches; also a share of every random payload pool) with a top-level "
+        "FILE named like the torrent beside other files and directories (it belongs at dest/name/name; only the one-leaf tree is the "
+        "single-file form), with a SUB-DIRECTORY named like the torrent, and with the name once more one level down; RESUME sequences (v1, v2, hybrid; Assembler "
         "API, CLI in process, and `python -m torrentfile rebuild` in separate processes): rebuild into the empty destination (judged), "
         "then 1-2 rebuilt files are cut to 0 / 1 / half / length-1 bytes as an interrupted copy leaves them, then the same rebuild again, and "
         "the destination is judged again by the same reference (failure kinds prefixed `resume:`).  A case is non-trivial when it is distinct and copies at least "
@@ -180,7 +183,8 @@ def e2e(ctx):
     quick = ctx.tier == "quick"
     plan = [("c13", None)] * (64 if quick else 1100) + [("d27", None)] * (8 if quick else 80) + [("d28", None)] * (6 if quick else 60) + \
         [("samename", None)] * (4 if quick else 40) + [("resume", None)] * (14 if quick else 200) + \
-        [("dotted", None)] * (8 if quick else 80) + [("boundary", None)] * (6 if quick else 80)
+        [("dotted", None)] * (8 if quick else 80) + [("boundary", None)] * (6 if quick else 80) + \
+        [("namesake", None)] * (10 if quick else 120)
     plan = [(p, "cli-proc" if (p == "c13" and i % (21 if quick else 40) == 5) or (p == "resume" and i % (5 if quick else 10) == 2) else None)
             for i, (p, _) in enumerate(plan)]
     seeds = [ctx.rng.getrandbits(48) for _ in plan]
